@@ -76,6 +76,7 @@ func runC11(c *Ctx) {
 	}
 	c11R4(c, extract)
 	c.Use(p)
+	parseFENResetRule(c, p, "C11.R5")
 }
 
 // ---------------------------------------------------------------- model of the parser
